@@ -132,7 +132,7 @@ type ahist struct {
 }
 
 func genArrayHistory(rng *lib.Rng, k kind, fixed bool, target, nOps int, label string) *ahist {
-	g := &arrGen{rng: rng, k: k, fixed: fixed, target: target}
+	g := &arrGen{rng: rng, k: k, fixed: fixed, target: target, hugeLeft: 3}
 	h := &ahist{K: k, Fixed: fixed, Label: label}
 	n0 := rng.Intn(4)
 	if fixed {
@@ -404,7 +404,7 @@ type dhist struct {
 }
 
 func genDictHistory(rng *lib.Rng, kk, vk kind, target, nOps int, label string) *dhist {
-	g := &dictGen{rng: rng, kk: kk, vk: vk, target: target}
+	g := &dictGen{rng: rng, kk: kk, vk: vk, target: target, hugeLeft: 3}
 	h := &dhist{KK: kk, VK: vk, Label: label, Init: newODict()}
 	for i := rng.Intn(4); i > 0; i-- {
 		h.Init.m[g.freshKey().String()] = g.val()
